@@ -112,7 +112,7 @@ class Range(object):
 
         """
         for a in range(0, self.N):
-            yield (a-self.N/2) * self.df
+            yield (a-self.N//2) * self.df
 
     def twosided_gen(self):
         """Returns the twosided frequency range as a generator
@@ -584,46 +584,27 @@ class Spectrum(object):
                 "complex datatype so sides cannot be onesided."
 
         if self.sides == 'onesided':
-            logging.debug('Current sides is onesided')
+            if 2 * len(self.psd) - 1 == self.NFFT:
+                # odd NFFT: the onesided PSD has no Nyquist entry
+                twosided = numpy.concatenate((self.psd, self.psd[-1:0:-1])) / 2.
+                twosided[0] *= 2.
+            else:
+                twosided = stools.onesided_2_twosided(self.psd)
             if sides == 'twosided':
-                logging.debug('--->Converting to twosided')
-                # here we divide everything by 2 to get the twosided version
-                #N = self.NFFT
-                newpsd = numpy.concatenate((self.psd[0:-1]/2., list(reversed(self.psd[0:-1]/2.))))
-                # so we need to multiply by 2 the 0 and FS/2 frequencies
-                newpsd[-1] = self.psd[-1]
-                newpsd[0] *= 2.
+                newpsd = twosided
             elif sides == 'centerdc':
-                # FIXME. this assumes data is even so PSD is stored as
-                # P0 X1 X2 X3 P1
-                logging.debug('--->Converting to centerdc')
-                P0 = self.psd[0]
-                P1 = self.psd[-1]
-                newpsd = numpy.concatenate((self.psd[-1:0:-1]/2., self.psd[0:-1]/2.))
-                # so we need to multiply by 2 the 0 and F2/2 frequencies
-                #newpsd[-1] = P0 / 2
-                newpsd[0] = P1
+                newpsd = stools.twosided_2_centerdc(twosided)
         elif self.sides == 'twosided':
-            logging.debug('Current sides is twosided')
             if sides == 'onesided':
-                # we assume that data is stored as X0,X1,X2,X3,XN
-                # that is original data is even.
-                logging.debug('Converting to onesided assuming ori data is even')
-                midN = (len(self.psd)-2) / 2
-                newpsd = numpy.array(self.psd[0:int(midN)+2]*2)
-                newpsd[0] /= 2
-                newpsd[-1] = self.psd[-1]
+                newpsd = stools.twosided_2_onesided(self.psd)
             elif sides == 'centerdc':
                 newpsd = stools.twosided_2_centerdc(self.psd)
-        elif self.sides == 'centerdc': # same as twosided to onesided
-            logging.debug('Current sides is centerdc')
+        elif self.sides == 'centerdc':
+            twosided = stools.centerdc_2_twosided(self.psd)
             if sides == 'onesided':
-                logging.debug('--->Converting to onesided')
-                midN = int(len(self.psd) / 2)
-                P1 = self.psd[0]
-                newpsd = numpy.append(self.psd[midN:]*2, P1)
+                newpsd = stools.twosided_2_onesided(twosided)
             elif sides == 'twosided':
-                newpsd = stools.centerdc_2_twosided(self.psd)
+                newpsd = twosided
         else:
             raise ValueError("sides must be set to 'onesided', 'twosided' or 'centerdc'")
 
